@@ -141,10 +141,7 @@ func parseStep(param lokiapi.OptPrometheusDuration, start, end time.Time) (time.
 }
 
 func defaultStep(start, end time.Time) time.Duration {
-	seconds := math.Max(
-		math.Floor(end.Sub(start).Seconds()/250),
-		1,
-	)
+	seconds := max(int64(end.Sub(start)/(250*time.Second)), 1)
 	return time.Duration(seconds) * time.Second
 }
 
